@@ -122,7 +122,7 @@ def plan_and_run(prop, eng, tier, seed, runs, pool, extra=None):
 def aggregate(results):
     agg = {'counters': {}, 'keys': set(), 'digests': [], 'violations': [], 'samples': [],
            'harness_errors': [], 'ticks': 0, 'runs': 0, 'nontrivial': 0, 'hashseeds': set(),
-           'lines_hit': set(), 'lines_total': 0, 'worlds': 0}
+           'lines_hit': set(), 'lines_total': 0, 'worlds': 0, 'buckets': {}}
     for r in results:
         agg['worlds'] += 1
         agg['hashseeds'].update(r.get('hashseeds_all', [r['hashseed']]))
@@ -141,6 +141,8 @@ def aggregate(results):
             agg['samples'].extend(r['samples'][:1])
         for e in r['harness_errors']:
             agg['harness_errors'].append(e)
+        for bk, bv in (r.get('buckets') or {}).items():
+            agg['buckets'].setdefault(bk, set()).update(bv)
         c = r.get('cover') or {}
         agg['lines_hit'].update(c.get('lines_hit', []))
         agg['lines_total'] = max(agg['lines_total'], c.get('lines_total', 0))
@@ -171,6 +173,11 @@ def process_violations(prop, eng, seed, agg, pool, known, per_class=8):
     for v in sorted(agg['violations'], key=lambda v: (v['violation']['class'],
                                                       len(json.dumps(v['case'])), v['index'])):
         cls = v['violation']['class']
+        # findings whose predicate is precise enough to be judged on the raw case
+        k = match_known([k for k in known if k.get('prematch')], prop, v['violation'], v.get('summary', {}))
+        if k is not None:
+            out_known.setdefault(k['id'], [k, 0])[1] += 1
+            continue
         if len(todo.setdefault(cls, [])) < per_class:
             todo[cls].append(v)
         else:
@@ -247,7 +254,10 @@ def write_evidence(prop, eng, tier, seed, agg, wall, nviol, known_hits, extra_co
         'faults_configured': configured,
         'probes': probes,
         'probes_stuck_at_zero': stuck,
-        'counters': {k: v for k, v in sorted(c.items()) if not k.startswith(('fault.', 'probe.'))},
+        'counters': {k: v for k, v in sorted(c.items()) if not k.startswith(('fault.', 'probe.', 'grid.'))},
+        'grid_cells_reached': len([k for k in c if k.startswith('grid.')]),
+        'grid_cells': {k[5:]: v for k, v in sorted(c.items()) if k.startswith('grid.')},
+        'distinct_by_bucket': {k: len(v) for k, v in sorted(agg['buckets'].items())},
         'texsoup_line_coverage': {'hit': len(agg['lines_hit']), 'total': agg['lines_total']},
         'real_code': ['every module of the TexSoup package, unmodified, from %s' % repo_path()],
         'stubs': getattr(eng, 'STUBS', ['input reader (SimReader)']),
@@ -266,6 +276,8 @@ def write_evidence(prop, eng, tier, seed, agg, wall, nviol, known_hits, extra_co
         'violations': nviol,
     }
     d = os.path.join(VERIF, 'evidence')
+    if os.path.abspath(repo_path()) != '/repo':
+        d = os.path.join(OUT, 'evidence-scratch')   # a scratch copy is under test: not evidence
     os.makedirs(d, exist_ok=True)
     with open(os.path.join(d, prop + '.json'), 'w') as fp:
         json.dump(ev, fp, indent=1, sort_keys=True)
